@@ -237,6 +237,21 @@ def run(ctx, R, tier):
                                  len(d.value.args) == 2 and unparse(d.value.args[1]) == pathp for d in gdefs if d.kind != "param")
     R.check(ok and src_ok, "C20-R3", "member|is-parsed-path-group", "the invoked member is the second group of the path match", f.loc(ga[0]),
             why or "object/member are not taken from a match on the request path")
+    # the name must not resolve to one of the Proxy object's own attributes (getattr finds those before Proxy.__getattr__ is asked)
+    def remote_only(atom, pol):
+        if isinstance(atom, ast.Call) and isinstance(atom.func, ast.Attribute) and atom.func.attr == "startswith" and unparse(atom.func.value) == membervar \
+                and atom.args and isinstance(atom.args[0], ast.Constant) and atom.args[0].value == "_":
+            return pol is False
+        if isinstance(atom, ast.Compare) and len(atom.ops) == 1 and unparse(atom.left) == membervar and \
+                unparse(atom.comparators[0]).endswith(("._pyroAttrs", "._pyroMethods")):
+            return (isinstance(atom.ops[0], ast.In) and pol is True) or (isinstance(atom.ops[0], ast.NotIn) and pol is False)
+        return False
+    for i, c in enumerate(ga):
+        g_ok = all(cfg.guarded(n, lambda e: edge_has_fact(e, remote_only)) for n in ctx.node_of(f, c))
+        R.check(g_ok, "C20-R3", "member|remote-namespace-only#%d" % i,
+                "the requested name cannot resolve to the Proxy's own methods: it is known to be remote metadata or not to start with an underscore", f.loc(c),
+                "`%s` looks the requested name up on the Proxy object itself: a request for /_pyroInvoke (or /_pyroRelease, ...) runs the proxy's own method "
+                "instead of being forwarded, and through _pyroInvoke's objectId parameter reaches objects that do not match the expose pattern" % unparse(c, 60))
     ok = True
     why = ""
     for c in calls:
